@@ -199,8 +199,9 @@ theorem FInv.pend_small {s : St β} (h : FInv P s) (hf : s.win.finishing = false
 theorem Core.init : Core P (St.init B P) := by
   constructor <;> simp [St.init, Win.init]
 
-theorem FInv.init : FInv P (St.init B P) :=
-  ⟨Core.init B P, .I, by simp [Ph, St.init, Win.init]⟩
+theorem Ph.init : Ph P .I (St.init B P) := by simp [Ph, St.init, Win.init]
+
+theorem FInv.init : FInv P (St.init B P) := ⟨Core.init B P, .I, Ph.init B P⟩
 
 /-! ## `k` times `move_pos` -/
 
@@ -281,6 +282,436 @@ theorem processPending_facts (s : St β) (h : Core P s) :
       rw [if_neg hc]
     rw [hs']
     exact ⟨h, Frame.rfl' s, rfl, rfl, Nat.le_refl _, fun hh => absurd hh hc, fun _ => rfl⟩
+
+end
+
+/-! ## `move_window` / `fill_window` -/
+
+section
+variable {β : Type} (B : BufOps β) (P : Params) (O : Oracle)
+
+/-- few bytes can be pending compared with the reserve of the buffer (`required_for_flushing ≤ nice_len ≤ 273`,
+    `reserve ≥ 256 KiB`) -/
+def Params.FlushSmall (P : Params) : Prop := P.reqFlush + Consts.MOVE_BLOCK_ALIGN ≤ 262144
+
+/-- `fill_window` up to `process_pending_bytes`, positions only, WITH pending bytes.  When the window moves
+    (`read_pos ≥ buf_size - keep_size_after`) the repaired offset is at least `MOVE_BLOCK_ALIGN` before the alignment -
+    in particular not negative - and `keep_size_before - 1` bytes stay before the first pending byte. -/
+theorem fillCore_facts (hrep : P.pinnedMove = false) (hkA : 1 ≤ P.keepAfter) (w : Win β) (input : List Nat)
+    (hwp : w.writePos ≤ P.bufSize) (hge : -1 ≤ w.readPos) (hlt : w.readPos + 1 ≤ w.writePos)
+    (hrl : w.readLimit + 1 ≤ w.writePos) (hpl : (w.pendingSize : Int) ≤ w.readPos + 1)
+    (hlb : w.base = 0 ∨ (P.keepBefore : Int) ≤ w.readPos - w.pendingSize + 1)
+    (hps : w.pendingSize + Consts.MOVE_BLOCK_ALIGN ≤ 262144) :
+    let r := fillCore B P w input
+    r.1.writePos ≤ P.bufSize ∧ -1 ≤ r.1.readPos ∧ r.1.readPos + 1 ≤ r.1.writePos ∧ r.1.readLimit + 1 ≤ r.1.writePos ∧
+    (r.1.pendingSize : Int) ≤ r.1.readPos + 1 ∧
+    (r.1.base = 0 ∨ (P.keepBefore : Int) ≤ r.1.readPos - r.1.pendingSize + 1) ∧
+    r.1.pendingSize = w.pendingSize ∧ r.1.finishing = w.finishing ∧
+    (w.writePos : Int) - w.readPos ≤ (r.1.writePos : Int) - r.1.readPos ∧
+    ((P.keepAfter ≤ r.1.writePos ∧ r.1.readLimit = (r.1.writePos : Int) - P.keepAfter) ∨
+     (r.1.readLimit - r.1.readPos = w.readLimit - w.readPos ∧
+      r.1.readLimit - (r.1.writePos : Int) ≤ w.readLimit - w.writePos)) ∧
+    -- the move
+    ((P.bufSize : Int) - P.keepAfter ≤ w.readPos →
+      (Consts.MOVE_BLOCK_ALIGN : Int) ≤ moveOffsetRaw P w ∧ Consts.MOVE_BLOCK_ALIGN ≤ moveOffset P w ∧
+      r.1.base = w.base + moveOffset P w ∧ (input ≠ [] → 0 < r.2)) := by
+  intro r
+  have hbs : P.bufSize = P.keepBefore + P.keepAfter + P.reserve := rfl
+  have hres : 262144 ≤ P.reserve := by unfold Params.reserve; omega
+  have hA : 0 < Consts.MOVE_BLOCK_ALIGN := align_ok.2
+  -- the window after the optional move
+  obtain ⟨w1, hw1, a1, a2, a3, a4, a5, a6, a7, a8, a9, a10⟩ : ∃ w1, w1 = (if w.readPos ≥ (P.bufSize : Int) - (P.keepAfter : Int) then moveWindow B P w else w) ∧
+      w1.writePos ≤ P.bufSize ∧ -1 ≤ w1.readPos ∧ w1.readPos + 1 ≤ w1.writePos ∧ w1.readLimit + 1 ≤ w1.writePos ∧
+      (w1.pendingSize : Int) ≤ w1.readPos + 1 ∧ (w1.base = 0 ∨ (P.keepBefore : Int) ≤ w1.readPos - w1.pendingSize + 1) ∧
+      w1.pendingSize = w.pendingSize ∧ w1.finishing = w.finishing ∧
+      ((w1.writePos : Int) - w1.readPos = (w.writePos : Int) - w.readPos ∧ w1.readLimit - w1.readPos = w.readLimit - w.readPos ∧
+        w1.readLimit - (w1.writePos : Int) = w.readLimit - w.writePos) ∧
+      ((P.bufSize : Int) - P.keepAfter ≤ w.readPos →
+        (Consts.MOVE_BLOCK_ALIGN : Int) ≤ moveOffsetRaw P w ∧ Consts.MOVE_BLOCK_ALIGN ≤ moveOffset P w ∧
+        w1.base = w.base + moveOffset P w ∧ w1.writePos + Consts.MOVE_BLOCK_ALIGN ≤ P.bufSize) := by
+    refine ⟨_, rfl, ?_⟩
+    by_cases hc : w.readPos ≥ (P.bufSize : Int) - (P.keepAfter : Int)
+    · rw [if_pos hc]
+      have hraw : (Consts.MOVE_BLOCK_ALIGN : Int) ≤ moveOffsetRaw P w := by unfold moveOffsetRaw; omega
+      have hoff : moveOffset P w = alignDown (moveOffsetRaw P w).toNat := by
+        unfold moveOffset; rw [hrep]; rfl
+      have hle : moveOffset P w ≤ (moveOffsetRaw P w).toNat := by rw [hoff]; exact alignDown_le _
+      have hge64 : Consts.MOVE_BLOCK_ALIGN ≤ moveOffset P w := by rw [hoff]; exact alignDown_ge _ (by omega)
+      have hraw2 : moveOffsetRaw P w = w.readPos + 1 - (P.keepBefore : Int) - (w.pendingSize : Int) := rfl
+      have e1 : (moveWindow B P w).readPos = w.readPos - moveOffset P w := rfl
+      have e2 : (moveWindow B P w).readLimit = w.readLimit - moveOffset P w := rfl
+      have e3 : (moveWindow B P w).writePos = w.writePos - moveOffset P w := rfl
+      have e4 : (moveWindow B P w).base = w.base + moveOffset P w := rfl
+      have e5 : (moveWindow B P w).pendingSize = w.pendingSize := rfl
+      have e6 : (moveWindow B P w).finishing = w.finishing := rfl
+      rw [e1, e2, e3, e4, e5, e6]
+      clear e1 e2 e3 e4 e5 e6 hoff
+      generalize moveOffset P w = off at *
+      refine ⟨by omega, by omega, by omega, by omega, by omega, Or.inr (by omega), rfl, rfl,
+        ⟨by omega, by omega, by omega⟩, fun _ => ⟨hraw, hge64, rfl, by omega⟩⟩
+    · rw [if_neg hc]
+      exact ⟨hwp, hge, hlt, hrl, hpl, hlb, rfl, rfl, ⟨rfl, rfl, rfl⟩, fun h => absurd h (by omega)⟩
+  have hr : r = ({ w1 with
+      buf := B.write w1.buf w1.writePos (input.take (min input.length (P.bufSize - w1.writePos)))
+      writePos := w1.writePos + min input.length (P.bufSize - w1.writePos)
+      readLimit := if w1.writePos + min input.length (P.bufSize - w1.writePos) ≥ P.keepAfter
+        then ((w1.writePos + min input.length (P.bufSize - w1.writePos) : Nat) : Int) - (P.keepAfter : Int)
+        else w1.readLimit }, min input.length (P.bufSize - w1.writePos)) := by
+    show fillCore B P w input = _
+    unfold fillCore
+    simp only [← hw1]
+  generalize hlen : min input.length (P.bufSize - w1.writePos) = len at hr
+  rw [hr]
+  obtain ⟨b1, b2, b3⟩ := a9
+  refine ⟨?_, a2, ?_, ?_, a5, a6, a7, a8, ?_, ?_, ?_⟩
+  · show w1.writePos + len ≤ P.bufSize; omega
+  · show w1.readPos + 1 ≤ ((w1.writePos + len : Nat) : Int); omega
+  · show (if w1.writePos + len ≥ P.keepAfter then ((w1.writePos + len : Nat) : Int) - (P.keepAfter : Int) else w1.readLimit) + 1
+        ≤ ((w1.writePos + len : Nat) : Int)
+    split <;> omega
+  · show (w.writePos : Int) - w.readPos ≤ ((w1.writePos + len : Nat) : Int) - w1.readPos; omega
+  · show (P.keepAfter ≤ w1.writePos + len ∧
+        (if w1.writePos + len ≥ P.keepAfter then ((w1.writePos + len : Nat) : Int) - (P.keepAfter : Int) else w1.readLimit)
+          = ((w1.writePos + len : Nat) : Int) - P.keepAfter) ∨
+      ((if w1.writePos + len ≥ P.keepAfter then ((w1.writePos + len : Nat) : Int) - (P.keepAfter : Int) else w1.readLimit)
+          - w1.readPos = w.readLimit - w.readPos ∧
+       (if w1.writePos + len ≥ P.keepAfter then ((w1.writePos + len : Nat) : Int) - (P.keepAfter : Int) else w1.readLimit)
+          - ((w1.writePos + len : Nat) : Int) ≤ w.readLimit - w.writePos)
+    by_cases hk : w1.writePos + len ≥ P.keepAfter
+    · left; rw [if_pos hk]; exact ⟨hk, rfl⟩
+    · right; rw [if_neg hk]; omega
+  · intro hc
+    obtain ⟨m1, m2, m3, m4⟩ := a10 hc
+    refine ⟨m1, m2, m3, fun hne => ?_⟩
+    show 0 < len
+    have : 0 < input.length := List.length_pos_iff.mpr hne
+    omega
+
+end
+
+/-! ## One symbol, the encode loop -/
+
+section
+variable {β : Type} (B : BufOps β) (P : Params) (O : Oracle)
+
+theorem hasEnough_iff (w : Win β) (a : Int) : hasEnoughData w a = true ↔ w.readPos - a < w.readLimit := by
+  unfold hasEnoughData
+  exact decide_eq_true_iff
+
+/-- one `encode_symbol` in any phase: the invariant and the phase are kept, the coder advances -/
+theorem symbolStep_FInv (hP : P.WF) (s : St β) (t : Tag) (h : Core P s) (ht : Ph P t s)
+    (he : hasEnoughData s.win (s.readAhead + 1) = true) :
+    let s' := (symbolStep B P O s).1
+    Core P s' ∧ Ph P t s' ∧ Frame s s' ∧ s.encPos + 1 ≤ s'.encPos := by
+  intro s'
+  have he' := (hasEnough_iff s.win _).mp he
+  have hrp := h.rp_ge; have hlt := h.rp_lt; have hrl := h.rl_le; have hra := h.ra_ge; have hra2 := h.ra_le
+  -- the decision
+  obtain ⟨d, hd⟩ : ∃ d, d = (if s.win.readPos = -1 then ((1 : Nat), (1 : Nat), false) else O s.trace) := ⟨_, rfl⟩
+  obtain ⟨adv, hadv⟩ : ∃ adv, adv = clampAdv (if s.readAhead = -1 then 1 else 0) d.1
+      (((P.maxAhead : Int) - s.readAhead).toNat) (((s.win.writePos : Int) - 1 - s.win.readPos).toNat) := ⟨_, rfl⟩
+  obtain ⟨len, hlen⟩ : ∃ len, len = clampLen d.2.1 (s.readAhead + adv) := ⟨_, rfl⟩
+  have hs' : s' = { advance B P (s.win.base + s.encPos.toNat) adv s with readAhead := s.readAhead + adv - len } := by
+    show (symbolStep B P O s).1 = _
+    unfold symbolStep
+    simp only [← hd, ← hadv, ← hlen]
+  have hadv1 : s.win.readPos + adv + 1 ≤ s.win.writePos := by
+    rw [hadv]; unfold clampAdv
+    by_cases hr : s.readAhead = -1
+    · rw [if_pos hr]; rw [hr] at he'; omega
+    · rw [if_neg hr]; omega
+  have hadv2 : s.readAhead + adv ≤ P.maxAhead := by
+    rw [hadv]; unfold clampAdv
+    by_cases hr : s.readAhead = -1
+    · rw [if_pos hr, hr]; omega
+    · rw [if_neg hr]; omega
+  have hadv3 : 0 ≤ s.readAhead + adv := by
+    rw [hadv]; unfold clampAdv
+    by_cases hr : s.readAhead = -1
+    · rw [if_pos hr, hr]; omega
+    · rw [if_neg hr]; omega
+  have hlen1 : 1 ≤ len ∧ (len : Int) ≤ s.readAhead + adv + 1 := by
+    rw [hlen]; unfold clampLen; omega
+  have hc := advance_core B P (s.win.base + s.encPos.toNat) adv s h hadv1
+  obtain ⟨f, r, p, q1, q2, n, fl, _⟩ := advance_facts B P (s.win.base + s.encPos.toNat) adv s
+  generalize advance B P (s.win.base + s.encPos.toNat) adv s = a at *
+  have e1 : s'.win = a.win := by rw [hs']
+  have e2 : s'.readAhead = s.readAhead + adv - len := by rw [hs']
+  have e3 : s'.low = a.low := by rw [hs']
+  refine ⟨?_, ?_, ?_, ?_⟩
+  · refine ⟨?_, ?_, ?_, ?_, ?_, ?_, ?_, ?_, ?_⟩
+    · rw [e1]; exact hc.wp_le
+    · rw [e1]; exact hc.rp_ge
+    · rw [e1]; exact hc.rp_lt
+    · rw [e1]; exact hc.rl_le
+    · rw [e1]; exact hc.pend_le
+    · rw [e1]; exact hc.lookback
+    · rw [e2]; omega
+    · rw [e2]; omega
+    · rw [e3]; exact hc.low_ok
+  · cases t with
+    | E =>
+      show s'.win.finishing = true
+      rw [e1, f.fin]; exact ht
+    | N =>
+      obtain ⟨t1, t2, t3⟩ := ht
+      refine ⟨by rw [e1, f.fin]; exact t1, ?_, by rw [e1, f.rl, f.wp]; exact t3⟩
+      rw [e1]
+      apply n t2
+      have := hP.ahead_le; have := hP.flush_le
+      have hk : P.keepAfter = P.extraAfter + P.matchLenMax := rfl
+      omega
+    | F =>
+      obtain ⟨t1, t2, t3⟩ := ht
+      refine ⟨by rw [e1, f.fin]; exact t1, by rw [e1, f.rl, f.wp]; exact t2, ?_⟩
+      rw [e1]
+      exact fl t1 hadv1 t3
+    | I =>
+      obtain ⟨_, t2, t3, _⟩ := ht
+      rw [t2] at he'
+      omega
+  · exact ⟨by rw [e1]; exact f.wp, by rw [e1]; exact f.base, by rw [e1]; exact f.rl, by rw [e1]; exact f.fin⟩
+  · unfold St.encPos
+    rw [e1, e2, p]
+    omega
+
+/-- the encode loop keeps invariant and phase; with enough fuel it ends because no symbol can be coded any more -/
+theorem encodeLoop_FInv (hP : P.WF) (hs : Bool) : ∀ (fuel : Nat) (s : St β) (t : Tag), Core P s → Ph P t s →
+    let s' := (encodeLoop B P O hs fuel s).1
+    Core P s' ∧ Ph P t s' ∧ Frame s s' ∧
+    (hs = false → ((s.win.writePos : Int) - s.encPos).toNat < fuel → hasEnoughData s'.win (s'.readAhead + 1) = false) := by
+  intro fuel
+  induction fuel with
+  | zero =>
+    intro s t h ht
+    exact ⟨h, ht, Frame.rfl' s, fun _ hf => absurd hf (by omega)⟩
+  | succ f ih =>
+    intro s t h ht
+    by_cases he : hasEnoughData s.win (s.readAhead + 1) = true
+    · obtain ⟨c1, p1, f1, e1⟩ := symbolStep_FInv B P O hP s t h ht he
+      by_cases hstop : (hs && (symbolStep B P O s).2) = true
+      · have : encodeLoop B P O hs (f + 1) s = ((symbolStep B P O s).1, true) := by
+          show (if hasEnoughData s.win (s.readAhead + 1) then
+            (if hs && (symbolStep B P O s).2 then ((symbolStep B P O s).1, true) else encodeLoop B P O hs f (symbolStep B P O s).1)
+            else (s, false)) = _
+          rw [if_pos he, if_pos hstop]
+        rw [this]
+        refine ⟨c1, p1, f1, fun hh => ?_⟩
+        rw [hh] at hstop
+        exact absurd hstop (by simp)
+      · have : encodeLoop B P O hs (f + 1) s = encodeLoop B P O hs f (symbolStep B P O s).1 := by
+          show (if hasEnoughData s.win (s.readAhead + 1) then
+            (if hs && (symbolStep B P O s).2 then ((symbolStep B P O s).1, true) else encodeLoop B P O hs f (symbolStep B P O s).1)
+            else (s, false)) = _
+          rw [if_pos he, if_neg hstop]
+        rw [this]
+        obtain ⟨c2, p2, f2, d2⟩ := ih (symbolStep B P O s).1 t c1 p1
+        refine ⟨c2, p2, Frame.trans f1 f2, fun hh hf => d2 hh ?_⟩
+        rw [f1.wp]
+        have he' := (hasEnough_iff s.win _).mp he
+        have := h.rl_le
+        have henc : s.encPos = s.win.readPos - s.readAhead := rfl
+        omega
+    · have : encodeLoop B P O hs (f + 1) s = (s, false) := by
+        show (if hasEnoughData s.win (s.readAhead + 1) then
+          (if hs && (symbolStep B P O s).2 then ((symbolStep B P O s).1, true) else encodeLoop B P O hs f (symbolStep B P O s).1)
+          else (s, false)) = _
+        rw [if_neg he]
+      rw [this]
+      exact ⟨h, ht, Frame.rfl' s, fun _ _ => by simpa using he⟩
+
+end
+
+/-! ## `fill_window`, `write`, `flush`, `finish` -/
+
+section
+variable {β : Type} (B : BufOps β) (P : Params) (O : Oracle)
+
+theorem core_of_win {s s1 : St β} (h : Core P s) (hra : s1.readAhead = s.readAhead) (hlow : s1.low = s.low)
+    (g1 : s1.win.writePos ≤ P.bufSize) (g2 : -1 ≤ s1.win.readPos) (g3 : s1.win.readPos + 1 ≤ s1.win.writePos)
+    (g4 : s1.win.readLimit + 1 ≤ s1.win.writePos) (g5 : (s1.win.pendingSize : Int) ≤ s1.win.readPos + 1)
+    (g6 : s1.win.base = 0 ∨ (P.keepBefore : Int) ≤ s1.win.readPos - s1.win.pendingSize + 1) : Core P s1 :=
+  ⟨g1, g2, g3, g4, g5, g6, by rw [hra]; exact h.ra_ge, by rw [hra]; exact h.ra_le, by rw [hlow]; exact h.low_ok⟩
+
+/-- `fill_window` between symbols (phase `N`) or after a `flush` (phase `I`, bytes pending): also across a window move -/
+theorem fillWindow_FInv (hP : P.WF) (hrep : P.pinnedMove = false) (hfs : P.FlushSmall) (s : St β) (input : List Nat)
+    (h : Core P s) (ht : Ph P .N s ∨ Ph P .I s) :
+    let s' := (fillWindow B P s input).1
+    Core P s' ∧ (Ph P .N s' ∨ Ph P .I s') := by
+  intro s'
+  have hkA : 1 ≤ P.keepAfter := by have := hP.mlm_pos; show 1 ≤ P.extraAfter + P.matchLenMax; omega
+  have hkA2 : P.reqFlush ≤ P.keepAfter := by have := hP.flush_le; show P.reqFlush ≤ P.extraAfter + P.matchLenMax; omega
+  have hfin : s.win.finishing = false := by rcases ht with t | t <;> exact t.1
+  have hps : s.win.pendingSize + Consts.MOVE_BLOCK_ALIGN ≤ 262144 := by
+    unfold Params.FlushSmall at hfs
+    rcases ht with t | t
+    · have := t.2.1; omega
+    · rcases t.2.2.2 with t0 | t0 <;> omega
+  obtain ⟨g1, g2, g3, g4, g5, g6, g7, g8, _, g10, _⟩ :=
+    fillCore_facts B P hrep hkA s.win input h.wp_le h.rp_ge h.rp_lt h.rl_le h.pend_le h.lookback hps
+  obtain ⟨s1, hs1⟩ : ∃ s1 : St β, s1 = { s with win := (fillCore B P s.win input).1 } := ⟨_, rfl⟩
+  have hs' : s' = processPending B P s1 := by rw [hs1]; rfl
+  have w1 : s1.win = (fillCore B P s.win input).1 := by rw [hs1]
+  have c1 : Core P s1 := core_of_win P h (by rw [hs1]) (by rw [hs1]) (by rw [w1]; exact g1) (by rw [w1]; exact g2)
+    (by rw [w1]; exact g3) (by rw [w1]; exact g4) (by rw [w1]; exact g5) (by rw [w1]; exact g6)
+  have r1 : s1.readAhead = s.readAhead := by rw [hs1]
+  rw [← w1] at g7 g8 g10
+  obtain ⟨c2, f2, r2, p2, q2, fired, notfired⟩ := processPending_facts B P s1 c1
+  rw [← hs'] at c2 f2 r2 p2 q2 fired notfired
+  refine ⟨c2, ?_⟩
+  have hfin1 : s1.win.finishing = false := by rw [g8]; exact hfin
+  by_cases hc : 0 < s1.win.pendingSize ∧ s1.win.readPos < s1.win.readLimit
+  · -- the pending bytes are run again: far enough from the end of the data, none stays pending
+    obtain ⟨fa, _⟩ := fired hc
+    rcases ht with t | t
+    · have := t.2.1; omega
+    · obtain ⟨_, t2, t3, _⟩ := t
+      rcases g10 with ⟨ga, gb⟩ | ⟨ga, _⟩
+      · left
+        refine ⟨by rw [f2.fin]; exact hfin1, fa (by omega), ?_⟩
+        rw [f2.rl, f2.wp, gb]; omega
+      · omega
+  · rw [notfired hc]
+    rcases ht with t | t
+    · left
+      obtain ⟨_, t2, t3⟩ := t
+      refine ⟨hfin1, by rw [g7]; exact t2, ?_⟩
+      rcases g10 with ⟨_, gb⟩ | ⟨_, gb⟩
+      · rw [gb]; omega
+      · omega
+    · obtain ⟨_, t2, t3, t4⟩ := t
+      by_cases hl : s1.win.readLimit ≤ s1.win.readPos
+      · right
+        exact ⟨hfin1, by rw [r1]; exact t2, hl, by rw [g7]; exact t4⟩
+      · left
+        have hp0 : s1.win.pendingSize = 0 := by omega
+        refine ⟨hfin1, hp0, ?_⟩
+        rcases g10 with ⟨_, gb⟩ | ⟨ga, _⟩
+        · rw [gb]; omega
+        · omega
+
+theorem writeLoop_FInv (hP : P.WF) (hrep : P.pinnedMove = false) (hfs : P.FlushSmall) :
+    ∀ (fuel : Nat) (s : St β) (rest : List Nat), Core P s → (Ph P .N s ∨ Ph P .I s) →
+    Core P (writeLoop B P O fuel s rest) ∧ (Ph P .N (writeLoop B P O fuel s rest) ∨ Ph P .I (writeLoop B P O fuel s rest)) := by
+  intro fuel
+  induction fuel with
+  | zero =>
+    intro s rest h ht
+    show Core P (if rest.isEmpty then s else { s with stuck := true }) ∧
+      (Ph P .N (if rest.isEmpty then s else { s with stuck := true }) ∨ Ph P .I (if rest.isEmpty then s else { s with stuck := true }))
+    split
+    · exact ⟨h, ht⟩
+    · exact ⟨⟨h.wp_le, h.rp_ge, h.rp_lt, h.rl_le, h.pend_le, h.lookback, h.ra_ge, h.ra_le, h.low_ok⟩, ht⟩
+  | succ f ih =>
+    intro s rest h ht
+    by_cases hr : rest.isEmpty = true
+    · have : writeLoop B P O (f + 1) s rest = s := by
+        show (if rest.isEmpty then s else _) = s
+        rw [if_pos hr]
+      rw [this]; exact ⟨h, ht⟩
+    · have : writeLoop B P O (f + 1) s rest =
+          writeLoop B P O f (encodeLoop B P O P.lzma2 ((fillWindow B P s rest).1.unenc + 1) (fillWindow B P s rest).1).1
+            (rest.drop (fillWindow B P s rest).2) := by
+        show (if rest.isEmpty then s else _) = _
+        rw [if_neg hr]
+      rw [this]
+      obtain ⟨c1, t1⟩ := fillWindow_FInv B P hP hrep hfs s rest h ht
+      rcases t1 with t1 | t1
+      · obtain ⟨c2, t2, _, _⟩ := encodeLoop_FInv B P O hP P.lzma2 _ _ .N c1 t1
+        exact ih _ _ c2 (Or.inl t2)
+      · obtain ⟨c2, t2, _, _⟩ := encodeLoop_FInv B P O hP P.lzma2 _ _ .I c1 t1
+        exact ih _ _ c2 (Or.inr t2)
+
+/-- `LZMA2Writer::flush`: everything in the window gets coded; fewer than `required_for_flushing` bytes stay pending -/
+theorem flush_FInv (hP : P.WF) (s : St β) (h : Core P s) (ht : Ph P .N s ∨ Ph P .I s) :
+    Core P (flush B P O s) ∧ Ph P .I (flush B P O s) := by
+  have hfin : s.win.finishing = false := by rcases ht with t | t <;> exact t.1
+  obtain ⟨s1, hs1⟩ : ∃ s1 : St β, s1 = { s with win := { s.win with readLimit := (s.win.writePos : Int) - 1 } } := ⟨_, rfl⟩
+  have hsf : setFlushing B P s = processPending B P s1 := by rw [hs1]; rfl
+  have c1 : Core P s1 := by
+    rw [hs1]
+    exact ⟨h.wp_le, h.rp_ge, h.rp_lt, by show (s.win.writePos : Int) - 1 + 1 ≤ s.win.writePos; omega, h.pend_le, h.lookback,
+      h.ra_ge, h.ra_le, h.low_ok⟩
+  have a1 : s1.win.readPos = s.win.readPos := by rw [hs1]
+  have a2 : s1.win.writePos = s.win.writePos := by rw [hs1]
+  have a3 : s1.win.pendingSize = s.win.pendingSize := by rw [hs1]
+  have a4 : s1.win.readLimit = (s.win.writePos : Int) - 1 := by rw [hs1]
+  have a5 : s1.win.finishing = false := by rw [hs1]; exact hfin
+  obtain ⟨c2, f2, r2, p2, q2, fired, notfired⟩ := processPending_facts B P s1 c1
+  rw [← hsf] at c2 f2 r2 p2 q2 fired notfired
+  have hlt := h.rp_lt
+  have tF : Ph P .F (setFlushing B P s) := by
+    refine ⟨by rw [f2.fin]; exact a5, by rw [f2.rl, f2.wp, a4, a2], ?_⟩
+    rw [f2.wp, p2, a1, a2]
+    by_cases hc : 0 < s1.win.pendingSize ∧ s1.win.readPos < s1.win.readLimit
+    · have := (fired hc).2 a5
+      rw [a2, a1] at this
+      exact this
+    · rw [notfired hc, a3]
+      rw [a3, a1, a4] at hc
+      rcases ht with t | t
+      · exact Or.inl t.2.1
+      · rcases t.2.2.2 with t0 | t0
+        · exact Or.inl t0
+        · by_cases hp0 : s.win.pendingSize = 0
+          · exact Or.inl hp0
+          · right; omega
+  obtain ⟨c3, t3, f3, d3⟩ := encodeLoop_FInv B P O hP false ((setFlushing B P s).unenc + 1) (setFlushing B P s) .F c2 tF
+  have hfl : flush B P O s = (encodeLoop B P O false ((setFlushing B P s).unenc + 1) (setFlushing B P s)).1 := rfl
+  rw [← hfl] at c3 t3 f3 d3
+  have hdone := d3 rfl (by unfold St.unenc; omega)
+  have hne : ¬ ((flush B P O s).win.readPos - ((flush B P O s).readAhead + 1) < (flush B P O s).win.readLimit) := by
+    intro hh
+    have := (hasEnough_iff (flush B P O s).win _).mpr hh
+    rw [hdone] at this
+    exact absurd this (by decide)
+  obtain ⟨u1, u2, u3⟩ := t3
+  have := c3.ra_ge; have := c3.rp_lt
+  refine ⟨c3, u1, by omega, by omega, ?_⟩
+  rcases u3 with u0 | u0
+  · exact Or.inl u0
+  · right; omega
+
+theorem finish_FInv (hP : P.WF) (s : St β) (h : Core P s) : Core P (finish B P O s) ∧ Ph P .E (finish B P O s) := by
+  obtain ⟨s1, hs1⟩ : ∃ s1 : St β, s1 = { s with win := { s.win with readLimit := (s.win.writePos : Int) - 1, finishing := true } } := ⟨_, rfl⟩
+  have hsf : setFinishing B P s = processPending B P s1 := by rw [hs1]; rfl
+  have c1 : Core P s1 := by
+    rw [hs1]
+    exact ⟨h.wp_le, h.rp_ge, h.rp_lt, by show (s.win.writePos : Int) - 1 + 1 ≤ s.win.writePos; omega, h.pend_le, h.lookback,
+      h.ra_ge, h.ra_le, h.low_ok⟩
+  have a5 : s1.win.finishing = true := by rw [hs1]
+  obtain ⟨c2, f2, _⟩ := processPending_facts B P s1 c1
+  rw [← hsf] at c2 f2
+  have tE : Ph P .E (setFinishing B P s) := by show (setFinishing B P s).win.finishing = true; rw [f2.fin]; exact a5
+  obtain ⟨c3, t3, _, _⟩ := encodeLoop_FInv B P O hP false ((setFinishing B P s).unenc + 1) (setFinishing B P s) .E c2 tE
+  exact ⟨c3, t3⟩
+
+theorem runEvs_FInv (hP : P.WF) (hrep : P.pinnedMove = false) (hfs : P.FlushSmall) :
+    ∀ (evs : List Ev) (s : St β), Core P s → (Ph P .N s ∨ Ph P .I s) →
+    Core P (runEvs B P O s evs) ∧ (Ph P .N (runEvs B P O s evs) ∨ Ph P .I (runEvs B P O s evs)) := by
+  intro evs
+  induction evs with
+  | nil => intro s h ht; exact ⟨h, ht⟩
+  | cons e es ih =>
+    intro s h ht
+    cases e with
+    | write p =>
+      obtain ⟨c, t⟩ := writeLoop_FInv B P O hP hrep hfs (2 * p.length + s.unenc + 1) s p h ht
+      exact ih _ c t
+    | flush =>
+      obtain ⟨c, t⟩ := flush_FInv B P O hP s h ht
+      exact ih _ c (Or.inr t)
+
+/-! ## The theorems -/
+
+/-- **The invariant of runs with `flush` calls.**  For every search, every sequence of `write` and `flush` calls
+    and the final `finish`: positions in range, `keep_size_before - 1` bytes of history before the first pending
+    byte (or nothing discarded yet), the match finder never run with less history than it may look back. -/
+theorem flush_inv_runEv (hP : P.WF) (hrep : P.pinnedMove = false) (hfs : P.FlushSmall) (evs : List Ev) :
+    FInv P (runEv B P O evs) := by
+  obtain ⟨c, t⟩ := runEvs_FInv B P O hP hrep hfs evs (St.init B P) (Core.init B P) (Or.inr (Ph.init B P))
+  obtain ⟨c2, t2⟩ := finish_FInv B P O hP _ c
+  exact ⟨c2, .E, t2⟩
 
 end
 
